@@ -185,7 +185,13 @@ class FileCache(TileCacheBase):
 
         if self.link_single_color_images == 'hardlink':
             try:
-                os.link(real_tile_loc, tile_loc)
+                try:
+                    os.link(real_tile_loc, tile_loc)
+                except FileNotFoundError:
+                    # link() fails with ENOENT when the single color tile is
+                    # replaced (rename in write_atomic) by a concurrent first
+                    # store of the same color. The new file is in place now.
+                    os.link(real_tile_loc, tile_loc)
             except OSError as e:
                 # ignore error if link was created by other process
                 if e.errno != errno.EEXIST:
